@@ -12,8 +12,8 @@ def run(ctx):
                 'correct CRC; raw base32/crc32 codec against the reference. distinct = distinct (mutated) strings by 64-bit hash.')
     ctx.assumptions = ['reference base32/CRC-32/publication-string implementation in harness/c17_pubstr.c (independent of libksi)',
                        'ASan+UBSan build of the library']
-    fin = ctx.run_shards(exe, [[ctx.seed * 1000 + i, n] for i in range(shards)])
+    fin = ctx.run_shards(exe, [[ctx.seed * 1000 + i, n, ['default', 0, 1, 2, 3, 7, 'default', 5][i % 8]] for i in range(shards)])
     ctx.require(fin == shards or ctx.violations, 'all shards finish')
     c = ctx.counters
     if not ctx.violations and not ctx.known_printed:
-        ctx.require(c.get('mutants_rejected', 0) > 1000 and c.get('roundtrips', 0) > 10, 'mutants/roundtrips observed')
+        ctx.require(c.get('mutants_rejected', 0) > 1000 and c.get('roundtrips', 0) > 10 and c.get('live_objects_rechecked', 0) > 500, 'mutants/roundtrips/live objects observed')
